@@ -21,6 +21,11 @@ DOLLAR_ATOMS = ['$', 'a', '{', '}', ' ', '\\(', '\\)', '\\[', '\\]']
 
 CLOSE = {'$': '$', '$$': '$$', '\\(': '\\)', '\\[': '\\]'}
 
+# what LaTeX itself says (independent of the library's database): these macros typeset their argument in text mode, these
+# environments typeset their body in math mode, \ensuremath typesets its argument in math mode
+TEXT_MACROS = ['text', 'text', 'mbox', 'textrm', 'textit', 'textbf', 'textsl', 'texttt', 'textsf', 'textsc', 'textup', 'textmd']
+MATH_ENVS = ['equation', 'equation*', 'align', 'align*', 'gather', 'gather*', 'multline', 'eqnarray', 'flalign', 'split']
+
 def gen_math_items(rng, depth, in_math, budget, cur=None):
     """nested formulas with known structure: items are ('T', letters) | ('G', items) | ('F', delim, items) | ('X', items) (\\text{..})"""
     n = rng.randint(1, 3)
@@ -32,7 +37,11 @@ def gen_math_items(rng, depth, in_math, budget, cur=None):
         elif r < 0.5:
             items.append(('G', gen_math_items(rng, depth + 1, in_math, budget - 1, cur)))
         elif r < 0.62 and in_math:
-            items.append(('X', gen_math_items(rng, depth + 1, False, budget - 1, None)))
+            items.append(('X', gen_math_items(rng, depth + 1, False, budget - 1, None), rng.choice(TEXT_MACROS)))
+        elif r < 0.68 and not in_math:
+            items.append(('E', gen_math_items(rng, depth + 1, True, budget - 1, None), rng.choice(MATH_ENVS)))
+        elif r < 0.72:
+            items.append(('Y', gen_math_items(rng, depth + 1, True, budget - 1, None)))
         else:
             # inside math opened by `$` a dollar closes it (also `$$`, which reads as `$` `$`); inside `$$` a `$$` closes it
             allowed = ['$', '$', '$', '$$', '\\(', '\\[']
@@ -65,7 +74,9 @@ def unparse_math(items):
     for it in items:
         if it[0] == 'T': s += it[1]
         elif it[0] == 'G': s += '{' + unparse_math(it[1]) + '}'
-        elif it[0] == 'X': s += '\\text{' + unparse_math(it[1]) + '}'
+        elif it[0] == 'X': s += '\\' + (it[2] if len(it) > 2 else 'text') + '{' + unparse_math(it[1]) + '}'
+        elif it[0] == 'E': s += '\\begin{' + it[2] + '}' + unparse_math(fix_body(it[1])) + '\\end{' + it[2] + '}'
+        elif it[0] == 'Y': s += '\\ensuremath{' + unparse_math(it[1]) + '}'
         else: s += it[1] + unparse_math(fix_body(it[2])) + CLOSE[it[1]]
     return s
 
@@ -75,6 +86,8 @@ def expected_math(items, mode, out):
         if it[0] == 'T': out.append(('c', it[1], mode))
         elif it[0] == 'G': expected_math(it[1], mode, out)
         elif it[0] == 'X': expected_math(it[1], (False, None), out)
+        elif it[0] == 'E': expected_math(fix_body(it[1]), (True, None), out)
+        elif it[0] == 'Y': expected_math(it[1], (True, None), out)      # entering math mode through an argument: no delimiter is expected
         else:
             out.append(('f', it[1] in ('$$', '\\['), it[1], CLOSE[it[1]], mode))
             expected_math(fix_body(it[2]), (True, it[1]), out)
